@@ -120,7 +120,7 @@ theorem wp_inertW {α} {p : Prog α} (hc : Calls Inert p) (tr : Trace) : wp R Fr
   wp_calls (fun tr _ (h : Inert _) => h.framedW tr) hc (All.trivial p) tr
 
 theorem walk_zero (env : PEnv) (orc : EvalOracles) (expr : Expr) (md : Maildir) (st : MainSt) :
-    walk env orc expr 0 md st = .ret (st, md) := rfl
+    walk env orc expr 0 md st = .ret ({ st with fuelOut := true }, md) := rfl
 
 /-- The body of the walk after `readdir` returned `r`. -/
 def walkK (env : PEnv) (orc : EvalOracles) (expr : Expr) (fuel : Nat) (md : Maildir) (st : MainSt) (r : Res) :
@@ -281,6 +281,9 @@ theorem processMessage_setErr (env : PEnv) (orc : EvalOracles) (expr : Expr) (md
         simp [orErr, setErr]
       | some ms =>
         simp only [afterParse]
+        rw [mapP_bind]
+        congr 1
+        funext ev
         exact afterVerdict_setErr env md name st ms _ b
 
 theorem walk_setErr (env : PEnv) (orc : EvalOracles) (expr : Expr) (fuel : Nat) (md : Maildir) (st : MainSt) (b : Bool) :
